@@ -2,7 +2,7 @@
    force (bool, option, unit, list, prod, sumbool, sumor -> OCaml types; andb/orb
    inlined); Z, positive, nat, comparison, spec_float stay Coq datatypes. *)
 From Coq Require Import Extraction ExtrOcamlBasic.
-From Rscel Require Import Base.Prims Base.F64 Model.Value Model.Ops Model.Dispatch Model.Funcs Model.Interp Model.Lexer Model.Ast Model.Parser Model.Compile Spec.Wf Spec.Arith.
+From Rscel Require Import Base.Prims Base.F64 Model.Value Model.Ops Model.Dispatch Model.Funcs Model.Interp Model.Lexer Model.Ast Model.Parser Model.Compile Spec.Wf Spec.Arith Spec.WfCode.
 Extraction Language OCaml.
 Extraction "../ocaml/extracted/model.ml"
   Prims.bytes_cmp F64.f64_of_bits F64.f64_to_bits
@@ -12,4 +12,5 @@ Extraction "../ocaml/extracted/model.ml"
   Text.utf8_encode Text.utf8_decode Lexer.tz_init Lexer.tz_next Lexer.tz_peek Lexer.tz_loc Lexer.lex
   Parser.parse_program Parser.p_expr
   Compile.compile_source Compile.resolve
+  WfCode.wf_code WfCode.code_depth
   Wf.wf Arith.arith_spec Arith.widen Arith.num_of.
